@@ -64,12 +64,12 @@ def main():
                 res['tests_tail'] = o[-1500:]
         # demo: with patch must fail, without must pass
         dc = meta['demo_cmd']
-        dc = re.sub(r'cd /tmp/mut\d?-C\d\d\s*(&&|;)', '', dc)
-        dc = re.sub(r'/tmp/mut\d?-' + pid + '/', '', dc)
+        dc = re.sub(r'cd /tmp/mut\d*-C\d\d\s*(&&|;)', '', dc)
+        dc = re.sub(r'/tmp/mut\d*-' + pid + '/?', './', dc)
         dc = re.sub(r'(\S*)_out/' + re.escape(name) + '/', out + '/', dc)
         if 'cp ' not in dc:
             for f in demo:
-                shutil.copy(os.path.join(mdir, f), d)
+                shutil.copy(os.path.join(mdir, f), os.path.join(d, meta.get('demo_dir') or '.'))
         rc1, o1 = sh(dc, d, timeout=900)
         res['demo_with_patch'] = 'fails' if rc1 else 'passes'
         res['demo_with_patch_tail'] = o1[-600:]
